@@ -381,7 +381,7 @@ fn native_search() {
             continue;
         }
         tried += 1;
-        let same = |c: &str| c == clause || (clause == "charge_is_sum" && c == "cycle_mix") || (clause.starts_with("attempt to") && c == "panic") || (clause == "panic" && c == "panic");
+        let same = |c: &str| clause == "any" || c == clause || (clause == "address_registers" && c == "regs") || (clause == "charge_is_sum" && c == "cycle_mix") || (clause.starts_with("attempt to") && c == "panic") || (clause == "panic" && c == "panic");
         if let Some((c, d)) = o.failed.iter().find(|(c, _)| same(c)) {
             println!("WITNESS {}", to_json(&form, c, &inp, &format!("{} | real: {} | contract: {}", d, o.after, o.expected)));
             println!("TRIED {}", tried);
@@ -477,6 +477,105 @@ fn native_c10_bounded() {
     for (c, d) in fails.iter() {
         if seen.insert(*c) {
             println!("C10-FAIL {} {}", c, d);
+        }
+    }
+}
+
+// ------------------------------------------------------------------------------------------------
+// C16 bounded stand-in for the MESSAGE TEXT and time stamps (the Kani harnesses stub send_io_port_value):
+// every history of depth 4 over {write DDR, write DR, external input} x covering values, on every port,
+// through the REAL Bus::write / write_port with a real channel attached.  Checked after every operation:
+// a message is sent iff the driven output (DR & DDR as the registers read) changed, it is exactly
+// `ioport:<port hex>:<value hex>:<states>` with the new value and the current state count, other ports'
+// registers are untouched.  BOUNDED, natively; not counted as proved.
+#[test]
+fn native_c16_messages() {
+    if std::env::var("KOGE29_C16").is_err() {
+        return;
+    }
+    const VALS: [u8; 4] = [0x00, 0xff, 0x0f, 0xa5];
+    const DEPTH: usize = 4;
+    let mut fails: Vec<(&'static str, String)> = vec![];
+    let mut count = 0u64;
+    let cpu0 = Cpu::new();
+    let mut bus = cpu0.bus.clone();
+    let (tx, rx) = std::sync::mpsc::channel::<String>();
+    bus.message_tx = Some(tx);
+    for port in 1..=11u32 {
+        let total = 12u32.pow(DEPTH as u32);
+        for code in 0..total {
+            // fresh port state (the rest of the bus is never touched by these operations)
+            for k in 0..11 {
+                bus.io_registrs1[k] = 0;
+                bus.io_registrs2[0xb0 + k] = 0;
+                bus.io_port_in[k] = 0;
+            }
+            let q = if port == 11 { 1 } else { port + 1 };
+            let _ = bus.write(0xfee000 + q - 1, 0x3c);
+            let _ = bus.write(0xffffd0 + q - 1, 0x5a);
+            while rx.try_recv().is_ok() {}
+            let other = (bus.io_registrs1[(q - 1) as usize], bus.io_registrs2[(0xb0 + q - 1) as usize], bus.io_port_in[(q - 1) as usize]);
+            let mut c = code;
+            let mut stamp = 0usize;
+            let mut last_stamp = 0usize;
+            for step in 0..DEPTH {
+                let op = c % 12;
+                c /= 12;
+                let v = VALS[(op % 4) as usize];
+                stamp += 7 * (step + 1);
+                bus.cpu_state_sum = stamp;
+                let ddr0 = bus.io_registrs1[(port - 1) as usize];
+                let dr0 = bus.io_registrs2[(0xb0 + port - 1) as usize];
+                let driven0 = dr0 & ddr0;
+                match op / 4 {
+                    0 => {
+                        let _ = bus.write(0xfee000 + port - 1, v);
+                    }
+                    1 => {
+                        let _ = bus.write(0xffffd0 + port - 1, v);
+                    }
+                    _ => bus.write_port(port as u8, v),
+                }
+                let ddr1 = bus.io_registrs1[(port - 1) as usize];
+                let dr1 = bus.io_registrs2[(0xb0 + port - 1) as usize];
+                let driven1 = dr1 & ddr1;
+                let msgs: Vec<String> = rx.try_iter().collect();
+                let want = format!("ioport:{:x}:{:x}:{}", port, driven1, stamp);
+                if driven1 != driven0 && msgs.last() != Some(&want) {
+                    fails.push(("output_change_announced_with_exact_text", format!("port {:x} history code {} step {}: messages {:?}, expected last {}", port, code, step, msgs, want)));
+                }
+                for m in msgs.iter() {
+                    let parts: Vec<&str> = m.split(':').collect();
+                    let ok = parts.len() == 4 && parts[0] == "ioport" && u32::from_str_radix(parts[1], 16) == Ok(port) && parts[3].parse::<usize>().map(|t| t >= last_stamp && t == stamp).unwrap_or(false);
+                    if !ok {
+                        fails.push(("message_format_and_non_decreasing_time_stamp", format!("port {:x} code {} step {}: {}", port, code, step, m)));
+                    }
+                }
+                if let Some(m) = msgs.last() {
+                    if *m != want {
+                        fails.push(("last_announced_value_is_current_output", format!("port {:x} code {} step {}: {} expected {}", port, code, step, m, want)));
+                    }
+                }
+                last_stamp = stamp;
+                let now = (bus.io_registrs1[(q - 1) as usize], bus.io_registrs2[(0xb0 + q - 1) as usize], bus.io_port_in[(q - 1) as usize]);
+                if now != other {
+                    fails.push(("ports_never_influence_each_other", format!("port {:x} code {} step {}", port, code, step)));
+                }
+                if fails.len() > 20 {
+                    break;
+                }
+            }
+            count += 1;
+            if fails.len() > 20 {
+                break;
+            }
+        }
+    }
+    println!("C16-BOUNDED histories={} failures={}", count, fails.len());
+    let mut seen = std::collections::BTreeSet::new();
+    for (c, d) in fails.iter() {
+        if seen.insert(*c) {
+            println!("C16-FAIL {} {}", c, d);
         }
     }
 }
